@@ -2,6 +2,7 @@ import QipVerif.Util.GateIO
 import QipVerif.Util.RatProto
 import QipVerif.Model.SpinChain
 import QipVerif.Model.Sched
+import QipVerif.Model.SpinChainSched
 import QipVerif.Gen.DeviceTables
 /-! Driver for the model of the spin-chain compiler stage (C06), `Rat` instance: angles are fixed
 multiples of π/8 (kept in units of π), hardware parameters exact rationals.
@@ -25,22 +26,10 @@ def showErr : SpinChain.Err → String
 
 def evQ (a : Ang) : Rat := (a.p8 : Rat) / 8
 
-def lcmNat (a b : Nat) : Nat := if a = 0 ∨ b = 0 then 0 else a / Nat.gcd a b * b
-
-/-- start time of every instruction: cumulative sums (no scheduling) or the scheduler model -/
+/-- start time of every instruction: cumulative sums (no scheduling) or the scheduler model
+(`Model/SpinChainSched.lean`, the function the theorems of C06 are about) -/
 def starts (mode : String) (is : List (Instr Rat)) : Option (List Rat) :=
-  if mode == "none" then
-    some ((is.foldl (fun (acc : List Rat × Rat) i => (acc.1 ++ [acc.2], acc.2 + i.dur)) ([], 0)).1)
-  else
-    let D : Nat := is.foldl (fun d i => lcmNat d i.dur.den) 1
-    let ns : List Sched.Ins := is.map fun i =>
-      ⟨i.gate.name.toString, i.gate.targets.mergeSort, i.gate.controls.mergeSort, (i.dur * (D : Rat)).num,
-        -- `sc`: the spin chain's native gates (RX, RZ, ISWAP, SQRTISWAP) are self-commuting families
-        true⟩
-    if ns.isEmpty then some [] else
-    if ns.all (fun i => i.used.isEmpty) then none else
-    let cfg : Sched.Cfg := { alap := mode == "ALAP", allowPerm := true, shufs := [] }
-    some ((Sched.pulseStarts cfg ns).map fun (s : Int) => ((s : Rat) / (D : Rat)))
+  modelStarts (if mode == "none" then none else some (mode == "ALAP")) is
 
 def showLabel (c : Option (String × Int)) : String :=
   match c with
